@@ -215,3 +215,37 @@ Theorem C06_config_independent : forall sd op rest, 2 <= sd <= 8 ->
   run_case ([20; sd; op] :: rest) = run_case ([op] :: rest).
 Proof. exact config_independent. Qed.
 Print Assumptions C06_config_independent.
+
+(* FIRST ACCESS.  The listing takes the board's article count from shared memory; when it is not there yet,
+   cache.GetBTotalWithRetry -> SetBTotal computes it as (size of the index file) / 128.  For EVERY index file - its
+   records followed by any incomplete record of slack < 128 bytes - that count is the number of records
+   (C06_btotal_of_size), and the first page / cursor request served with it is the linear-scan page
+   (bbs_page_first = bbs_page_at with that count).  The size must be that of the file the records are in: with the
+   size of anything else (8 bytes: the text of a symbolic link) the count is 0 and the listing is empty although the scan
+   finds the entries (first_access_wrong_size_loses in Proofs/C06.v).  That the code asks the operating system for the
+   size of the right object is NOT a theorem - the check validates it on symbolic-link and hard-link layouts. *)
+Theorem C06_btotal_of_size : forall es slack, 0 <= slack < REC_SZ -> btotal_of_size (fsize es slack) = lenZ es.
+Proof. exact btotal_of_fsize. Qed.
+Print Assumptions C06_btotal_of_size.
+
+Theorem C06_first_access_page_eq_scan : forall es slack cur k desc,
+  0 <= slack < REC_SZ -> sorted es -> names_unique es ->
+  bbs_page_first es slack cur k desc = bbs_page_spec es cur k desc.
+Proof. exact first_access_page_eq_scan. Qed.
+Print Assumptions C06_first_access_page_eq_scan.
+
+(* The path layout of the index (case group [30; layout; op]) and another operation of the same process inside the index
+   ([31; mode; op]) are not inputs of the MODEL: it answers from the entries alone (true by construction - that the CODE
+   does is validated by the check, not proved: goroutines and the kernel's path resolution are outside the model).
+   The one op that reads the count by first access, op 7 under 30, is the linear-scan page (op 9). *)
+Theorem C06_env_independent : forall c v op rest,
+  (c = 30 /\ 0 <= v <= 4 /\ op <> 7) \/ (c = 31 /\ 1 <= v <= 4) ->
+  run_case ([c; v; op] :: rest) = run_case ([op] :: rest).
+Proof. exact env_independent. Qed.
+Print Assumptions C06_env_independent.
+
+Theorem C06_first_access_case : forall es hascur T nm k desc v, 0 <= v <= 4 ->
+  sorted (entries_of_wire es) -> names_unique (entries_of_wire es) ->
+  run_case [[30; v; 7]; es; [hascur; T; nm; k; desc]] = run_case [[9]; es; [hascur; T; nm; k; desc]].
+Proof. exact first_access_case. Qed.
+Print Assumptions C06_first_access_case.
